@@ -1,6 +1,11 @@
 package expander
 
-import "github.com/cloudflare/circl/xof"
+import (
+	"crypto"
+	"hash"
+
+	"github.com/cloudflare/circl/xof"
+)
 
 // C15: expand_message_xof (RFC 9380 5.3.2) for every message and the output lengths around the
 // 16-bit limit of the length field: for len_in_bytes <= 65535 the output is
@@ -55,4 +60,77 @@ func ZZ_C15_expand_message_xof_length_field() {
 	}
 	zzAssert(!aborted, "len_in_bytes <= 65535 is served")
 	zzAssert(zzBytesEq(out, zzExpandXOFRef(xof.SHAKE128, 128, dst, msg, n)), "expand_message_xof = RFC 9380 5.3.2")
+}
+
+// expand_message_xmd (RFC 9380 5.3.1) with the hash as an uninterpreted function of its input
+// (set "xmdhash": b_in_bytes = 32, s_in_bytes = 64): every output length around one and two hash
+// blocks and the 255-block limit, DST lengths 3, 255 (used verbatim) and 256 (hashed, 5.3.3).
+
+type zzHash struct{ data []byte }
+
+func (h *zzHash) Write(p []byte) (int, error) { h.data = append(h.data, p...); return len(p), nil }
+func (h *zzHash) Sum(b []byte) []byte         { return append(b, zzUF("H", 32, h.data)...) }
+func (h *zzHash) Reset()                      { h.data = nil }
+func (h *zzHash) Size() int                   { return 32 }
+func (h *zzHash) BlockSize() int              { return 64 }
+
+//zz:replace (crypto.Hash).New set=xmdhash
+func zzStubHashNew(h crypto.Hash) hash.Hash { return &zzHash{} }
+
+//zz:replace (crypto.Hash).Size set=xmdhash
+func zzStubHashSize(h crypto.Hash) int { return 32 }
+
+func zzHashRef(parts ...[]byte) []byte {
+	var d []byte
+	for _, p := range parts {
+		d = append(d, p...)
+	}
+	return zzUF("H", 32, d)
+}
+
+func zzExpandXMD(e *expanderMD, in []byte, n uint) (out []byte, aborted bool) {
+	defer func() {
+		if recover() != nil {
+			aborted = true
+		}
+	}()
+	return e.Expand(in, n), false
+}
+
+//zz: prop=C15 tier=quick backend=bv use=xmdhash timeout=300 budget=900
+func ZZ_C15_expand_message_xmd_is_RFC9380() {
+	n := uint(zzPick("len_in_bytes", 0, 1, 32, 33, 64, 65, 8160, 8161))
+	dl := zzPick("dstlen", 3, 255, 256)
+	if n > 100 {
+		dl = 3
+	}
+	msg := make([]byte, 3)
+	zzFill("msg", msg)
+	dst := make([]byte, dl)
+	zzFill("dst", dst)
+	e := NewExpanderMD(crypto.SHA256, dst)
+	out, aborted := zzExpandXMD(e, msg, n)
+	ell := (n + 31) / 32
+	if ell > 255 {
+		zzAssert(aborted, "ell > 255 aborts")
+		return
+	}
+	zzAssert(!aborted, "ell <= 255 is served")
+	d := dst
+	if len(dst) > 255 {
+		d = zzHashRef([]byte("H2C-OVERSIZE-DST-"), dst)
+	}
+	dstPrime := append(append([]byte{}, d...), byte(len(d)))
+	b0 := zzHashRef(make([]byte, 64), msg, []byte{byte(n >> 8), byte(n)}, []byte{0}, dstPrime)
+	bi := zzHashRef(b0, []byte{1}, dstPrime)
+	uniform := append([]byte{}, bi...)
+	for i := uint(2); i <= ell; i++ {
+		x := make([]byte, 32)
+		for j := range x {
+			x[j] = b0[j] ^ bi[j]
+		}
+		bi = zzHashRef(x, []byte{byte(i)}, dstPrime)
+		uniform = append(uniform, bi...)
+	}
+	zzAssert(zzBytesEq(out, uniform[:n]), "expand_message_xmd = RFC 9380 5.3.1")
 }
